@@ -260,7 +260,12 @@ static J gen_c13 (uint64_t seed, uint64_t idx)
 	std::vector<std::string> used ;
 	for (int k = 0 ; k < nchunks ; k++)
 	{	J c = mkop ("setchunk") ;
-		std::string id = (wild_ids && g.rng.chance (0.5)) ? wild [g.rng.below (11)] : plain [g.rng.below (8)] ;
+		// one kind of unusual id per plan (short / reserved / long, by plan index): the containers differ in which of them they cope with
+		static const char *w_short [] = { "ab", "x", "abc" }, *w_res [] = { "data", "LIST", "fmt ", "PEAK", "SSND", "COMM" }, *w_long [] = { "abcdefgh", "tSt0x", "abcdefgh" } ;
+		uint64_t wi = g.rng.below (11) ;
+		const char *wid = idx % 3 == 0 ? w_short [wi % 3] : idx % 3 == 1 ? w_res [wi % 6] : w_long [wi % 3] ;
+		(void) wild ;
+		std::string id = (wild_ids && g.rng.chance (0.5)) ? wid : plain [g.rng.below (8)] ;
 		int64_t len = g.rng.pick<int64_t> ({ 0, 1, 2, 3, 4, 5, 7, 17, 100, 255, 256, 257, 1000, 4095, 4096, 4097, 20000, 65535 }) ;
 		if (big && g.rng.chance (0.4)) len = g.rng.pick<int64_t> ({ 9000, 11000, 20000, 25000, 27000, 30000, 32000, 40000, 50000 }) ;
 		if (!big && len > 20000) len = 20000 ;
@@ -314,7 +319,7 @@ static Verdict check_c13 (const J &plan)
 	uint64_t key = (uint64_t) plan.geti ("seed") ;
 	// chunks stored: set before the audio and accepted
 	struct Ck { std::string id ; int64_t len, stream ; } ;
-	std::vector<Ck> stored ; bool wild = false ; int nset = 0 ;
+	std::vector<Ck> stored ; bool wild = false, wshort = false, wlong = false, wres = false ; int nset = 0 ;
 	const J &ops = plan.at ("tasks") [0].at ("ops") ;
 	for (auto &o : r.obs)
 	{	if (o.gets ("kind") != "setchunk") continue ;
@@ -324,14 +329,19 @@ static Verdict check_c13 (const J &plan)
 		if (x.geti ("rc") != 0) { v.probes ["chunk_set_refused"] ++ ; continue ; }
 		std::string id = x.gets ("id") ;
 		if (id.size () != 4 || reserved_id (id)) wild = true ;
+		if (id.size () < 4) wshort = true ; else if (id.size () > 4) wlong = true ; else if (reserved_id (id)) wres = true ;
 		stored.push_back (Ck { id, x.geti ("len"), op.geti ("stream") }) ;
 	}
 	int64_t total = 0, biggest = 0 ; for (auto &c : stored) { total += c.len + 16 ; biggest = std::max (biggest, c.len) ; }
 	// the limits of the pinned tree: the header buffer doubles (..., 32768, 65536) and is refused beyond 100 KiB, and a growth request is
 	// twice the payload: one payload above 51200 bytes, or a header beyond 64 KiB in all, cannot be written
-	bool bigh = total > 64000 || biggest > 51000 ;
-	if (!v.findings.empty ()) { for (auto &f : v.findings) f.sig += std::string (wild ? "+odd_ids" : "") + (bigh ? "+big_header" : "") ; return v ; }
-	std::string extra = std::string (wild ? "+odd_ids" : "") + (bigh ? "+big_header" : "") ;
+	// (the sizes alone do not decide it - the buffer doubles from wherever the previous request left it - so the writer's own log is
+	// asked: "Request for header allocation of N denied")
+	bool bigh = r.probes.count ("writer_header_allocation_denied") > 0 ; (void) total ; (void) biggest ;
+	// which kind of unusual id the plan used is part of the discriminator: the containers differ in what they cope with
+	std::string odd = wild ? std::string ("+odd_ids") + (wshort ? ":short" : "") + (wlong ? ":long" : "") + (wres ? ":reserved" : "") : "" ;
+	if (!v.findings.empty ()) { for (auto &f : v.findings) f.sig += odd + (bigh ? "+big_header" : "") ; return v ; }
+	std::string extra = odd + (bigh ? "+big_header" : "") ;
 	for (auto &o : r.obs)
 	{	if (o.gets ("kind") != "iterchunks" || !v.findings.empty ()) continue ;
 		const J &x = o.at ("v") ; const J &list = x.at ("list") ; int variant = (int) x.geti ("variant") ;
